@@ -128,6 +128,18 @@ def main():
             ar = E.run_unit(arb, a.tier, seed)
             res[arb.name] = ar
             afl = [f for f in ar.get('failed', []) if f['cls'] in E.FUNCTION_LEVEL] if ar['status'] == 'failed' else []
+            # a listed finding of the unit is a listed finding of its arbiter (same function contract)
+            new_afl = []
+            for f in afl:
+                k = known(findings, prop, u.name, f['obligation'])
+                if k:
+                    kf_lines.append('KNOWN-FINDING: %s' % k['text'])
+                else:
+                    new_afl.append(f)
+            if afl and not new_afl:
+                r['status'] = 'known-finding'
+                continue
+            afl = new_afl
             if afl:
                 rp, reproduced = R.make_replay(prop, arb, afl, ar)
                 violations.append((arb.name, afl, rp, reproduced))
